@@ -469,63 +469,108 @@ func (p *c16) keyConditions(x *res, ctx *runner.Ctx) {
 	}
 }
 
+// c16Modes are the client conditions under which the batch rules are exercised: a request that breaks a batch
+// rule must be refused whatever else is going on - on a healthy client, after a failure condition was switched
+// on and off again, and WHILE one is active (then the configured error is as good a refusal as the validation
+// error; a plain success, with or without UnprocessedItems, is not).
+var c16Modes = []struct {
+	name string
+	pre  []adapt.Op
+}{
+	{"healthy", nil},
+	{"after-failure-toggled-off", []adapt.Op{{Kind: adapt.OpEmulate, Fail: "internal_server"}, {Kind: adapt.OpEmulate, Fail: "none"}, {Kind: adapt.OpForceOn}, {Kind: adapt.OpForceOff}}},
+	{"internal-server-active", []adapt.Op{{Kind: adapt.OpEmulate, Fail: "internal_server"}}},
+	{"deprecated-active", []adapt.Op{{Kind: adapt.OpEmulate, Fail: "deprecated"}}},
+	{"forced-active", []adapt.Op{{Kind: adapt.OpForceOn}}},
+}
+
 func (p *c16) batchRules(x *res, ctx *runner.Ctx) {
 	for _, adapter := range adapt.Adapters {
 		specs := []adapt.TableSpec{mon.SpecHashOnly("tba16"), mon.SpecHashOnly("tbb16"), mon.SpecHashOnly("tbc16")}
-		for _, size := range []int{1, 24, 25, 26, 50} {
-			for ntab := 1; ntab <= 3; ntab++ {
-				cl, _, _ := freshClient(adapter, specs...)
-				batch := []adapt.BatchEntry{}
-				for i := 0; i < size; i++ {
-					t := specs[i%ntab].Name
-					if i%3 == 2 {
-						batch = append(batch, adapt.BatchEntry{Table: t, Del: val.Item{"h": val.Str(fmt.Sprint("d", i))}})
-					} else {
-						batch = append(batch, adapt.BatchEntry{Table: t, Put: val.Item{"h": val.Str(fmt.Sprint("k", i)), "v": val.Num(fmt.Sprint(i))}})
+		for _, mode := range c16Modes {
+			failing := strings.HasSuffix(mode.name, "-active")
+			for _, size := range []int{1, 13, 24, 25, 26, 27, 50, 100, 101} {
+				for ntab := 1; ntab <= 3; ntab++ {
+					cl, _, _ := freshClient(adapter, specs...)
+					for _, op := range mode.pre {
+						cl.Do(op)
+					}
+					batch := []adapt.BatchEntry{}
+					for i := 0; i < size; i++ {
+						t := specs[i%ntab].Name
+						if i%3 == 2 {
+							batch = append(batch, adapt.BatchEntry{Table: t, Del: val.Item{"h": val.Str(fmt.Sprint("d", i))}})
+						} else {
+							batch = append(batch, adapt.BatchEntry{Table: t, Put: val.Item{"h": val.Str(fmt.Sprint("k", i)), "v": val.Num(fmt.Sprint(i))}})
+						}
+					}
+					op := adapt.Op{Kind: adapt.OpBatchWrite, Batch: batch}
+					got := cl.Do(op)
+					x.r.Evals++
+					x.fp(true, "R6|%s|%s|%d|%d", adapter, mode.name, size, ntab)
+					x.set("batch_rule_modes", mode.name)
+					wit := map[string]interface{}{"adapter": adapter, "mode": mode.name, "size": size, "tables": ntab, "outcome": got}
+					if size <= 25 && !failing && got.Class != adapt.ClsOK {
+						x.viol("valid-batch-rejected", fmt.Sprint("size<=25"), fmt.Sprintf("[%s, %s] batch of %d over %d tables rejected: %s %s", adapter, mode.name, size, ntab, got.Class, got.Msg), wit)
+					}
+					if size > 25 && got.Class == adapt.ClsOK {
+						x.viol("oversized-batch-accepted", "size>25/"+mode.name, fmt.Sprintf("[%s, %s] batch of %d over %d tables accepted (%d unprocessed)", adapter, mode.name, size, ntab, len(got.Unproc)), wit)
+					}
+					if size > 25 {
+						cl.Do(adapt.Op{Kind: adapt.OpEmulate, Fail: "none"})
+						cl.Do(adapt.Op{Kind: adapt.OpForceOff})
+						total := 0
+						for _, s := range specs {
+							sc := cl.Do(adapt.Op{Kind: adapt.OpScan, Table: s.Name})
+							total += len(sc.Items)
+						}
+						if total != 0 {
+							x.viol("rejected-batch-applied", "size>25", fmt.Sprintf("[%s, %s] rejected batch of %d wrote %d items", adapter, mode.name, size, total), wit)
+						}
 					}
 				}
-				op := adapt.Op{Kind: adapt.OpBatchWrite, Batch: batch}
-				got := cl.Do(op)
+			}
+			for _, shape := range []string{"neither", "both", "neither-among-valid", "both-among-valid", "neither-last-of-25", "both-first-of-20"} {
+				cl, _, _ := freshClient(adapter, specs[0])
+				for _, op := range mode.pre {
+					cl.Do(op)
+				}
+				t := specs[0].Name
+				good := adapt.BatchEntry{Table: t, Put: val.Item{"h": val.Str("g")}}
+				bad := adapt.BatchEntry{Table: t}
+				if strings.HasPrefix(shape, "both") {
+					bad = adapt.BatchEntry{Table: t, Put: val.Item{"h": val.Str("b")}, Del: val.Item{"h": val.Str("b")}}
+				}
+				batch := []adapt.BatchEntry{bad}
+				many := func(n int) []adapt.BatchEntry {
+					out := []adapt.BatchEntry{}
+					for i := 0; i < n; i++ {
+						out = append(out, adapt.BatchEntry{Table: t, Put: val.Item{"h": val.Str(fmt.Sprint("g", i))}})
+					}
+					return out
+				}
+				switch {
+				case strings.HasSuffix(shape, "among-valid"):
+					batch = []adapt.BatchEntry{good, bad, good}
+				case strings.HasSuffix(shape, "last-of-25"):
+					batch = append(many(24), bad)
+				case strings.HasSuffix(shape, "first-of-20"):
+					batch = append([]adapt.BatchEntry{bad}, many(19)...)
+				}
+				got := cl.Do(adapt.Op{Kind: adapt.OpBatchWrite, Batch: batch})
 				x.r.Evals++
-				x.fp(true, "R6|%s|%d|%d", adapter, size, ntab)
-				wit := map[string]interface{}{"adapter": adapter, "size": size, "tables": ntab, "outcome": got}
-				if size <= 25 && got.Class != adapt.ClsOK {
-					x.viol("valid-batch-rejected", fmt.Sprint("size<=25"), fmt.Sprintf("[%s] batch of %d over %d tables rejected: %s %s", adapter, size, ntab, got.Class, got.Msg), wit)
+				x.fp(true, "R6|%s|%s|%s", adapter, mode.name, shape)
+				wit := map[string]interface{}{"adapter": adapter, "mode": mode.name, "shape": shape, "outcome": got}
+				if got.Class == adapt.ClsOK {
+					x.viol("malformed-write-request-accepted", shape+"/"+mode.name, fmt.Sprintf("[%s, %s] write request with %s of put/delete accepted (%d unprocessed)", adapter, mode.name, shape, len(got.Unproc)), wit)
+				} else if got.Class == adapt.ClsRuntime {
+					x.viol("runtime-panic", got.Site, fmt.Sprintf("[%s, %s] write request %s: panic %s", adapter, mode.name, shape, got.Msg), wit)
 				}
-				if size > 25 && got.Class == adapt.ClsOK {
-					x.viol("oversized-batch-accepted", "size>25", fmt.Sprintf("[%s] batch of %d over %d tables accepted", adapter, size, ntab), wit)
+				cl.Do(adapt.Op{Kind: adapt.OpEmulate, Fail: "none"})
+				cl.Do(adapt.Op{Kind: adapt.OpForceOff})
+				if sc := cl.Do(adapt.Op{Kind: adapt.OpScan, Table: t}); len(sc.Items) != 0 {
+					x.viol("rejected-batch-applied", "malformed", fmt.Sprintf("[%s, %s] batch with a malformed write request (%s) wrote %d items", adapter, mode.name, shape, len(sc.Items)), wit)
 				}
-				if size > 25 {
-					total := 0
-					for _, s := range specs {
-						sc := cl.Do(adapt.Op{Kind: adapt.OpScan, Table: s.Name})
-						total += len(sc.Items)
-					}
-					if total != 0 {
-						x.viol("rejected-batch-applied", "size>25", fmt.Sprintf("[%s] rejected batch of %d wrote %d items", adapter, size, total), wit)
-					}
-				}
-			}
-		}
-		for _, shape := range []string{"neither", "both", "neither-among-valid", "both-among-valid"} {
-			cl, _, _ := freshClient(adapter, specs[0])
-			t := specs[0].Name
-			good := adapt.BatchEntry{Table: t, Put: val.Item{"h": val.Str("g")}}
-			bad := adapt.BatchEntry{Table: t}
-			if strings.HasPrefix(shape, "both") {
-				bad = adapt.BatchEntry{Table: t, Put: val.Item{"h": val.Str("b")}, Del: val.Item{"h": val.Str("b")}}
-			}
-			batch := []adapt.BatchEntry{bad}
-			if strings.HasSuffix(shape, "among-valid") {
-				batch = []adapt.BatchEntry{good, bad, good}
-			}
-			got := cl.Do(adapt.Op{Kind: adapt.OpBatchWrite, Batch: batch})
-			x.r.Evals++
-			x.fp(true, "R6|%s|%s", adapter, shape)
-			if got.Class == adapt.ClsOK {
-				x.viol("malformed-write-request-accepted", shape, fmt.Sprintf("[%s] write request with %s of put/delete accepted", adapter, shape), map[string]interface{}{"adapter": adapter, "shape": shape})
-			} else if got.Class == adapt.ClsRuntime {
-				x.viol("runtime-panic", got.Site, fmt.Sprintf("[%s] write request %s: panic %s", adapter, shape, got.Msg), map[string]interface{}{"adapter": adapter, "shape": shape})
 			}
 		}
 	}
